@@ -16247,10 +16247,12 @@ func (p *PathAttributeAigp) DecodeFromBytes(data []byte, options ...*Marshalling
 		return err
 	}
 	var values []AigpTLVInterface
-	for len(value) > 3 {
+	for len(value) >= 3 {
 		typ := value[0]
+		// RFC 7311 3.: the length covers the type and length octets, so a TLV
+		// with an empty value has length 3
 		length := binary.BigEndian.Uint16(value[1:3])
-		if length <= 3 {
+		if length < 3 {
 			return NewMessageError(BGP_ERROR_MESSAGE_HEADER_ERROR, BGP_ERROR_SUB_BAD_MESSAGE_LENGTH, nil, "Malformed BGP message")
 		}
 		if len(value) < int(length) {
